@@ -111,23 +111,22 @@ def showSection (dim : Nat) (e : EnvSt) (evals polls : Nat) (qhash : UInt64) (s 
       s!"tree={s.ps.tree.size}:{hex16 th} lseed={s.ps.rngSeed}," ++
       (match s.ps.sampler with | some (_, sd) => toString sd | none => "-")
 
-/-- Counters and hash are cumulative over the sections of a history, so each `solve` section is printed from the
-environment as it stood when that `solve` returned: the program is re-run on the prefixes of the history. -/
+/-- Counters and hash are cumulative over the sections of a history; each `solve` section is printed from the `mark` the
+program left when that `solve` returned. -/
 def runJob (clock : UInt64) (j : Job) : String :=
   let orc := boxOracle j.P j.boxes
   let full := runS (envStep orc) (program j.P j.budget j.hist) (envInit clock j.seed j.iter j.trace)
   match full.1 with
   | none => "model-diverged"
   | some secs =>
-    let lines := (List.range secs.length).map fun i =>
-      match secs[i]? with
-      | none => "?"
-      | some s =>
-        match s.report with
-        | none => "cleared"
-        | some _ =>
-          let pre := runS (envStep orc) (program j.P j.budget (j.hist.take (i + 1))) (envInit clock j.seed j.iter false)
-          showSection j.P.dim pre.2 pre.2.evals pre.2.polls pre.2.qhash s
+    let marks := full.2.marks.reverse
+    let lines := (secs.foldl (fun (acc : List String × Nat) s =>
+      match s.report with
+      | none => (acc.1 ++ ["cleared"], acc.2)
+      | some _ =>
+        match marks[acc.2]? with
+        | none => (acc.1 ++ ["?"], acc.2 + 1)
+        | some (ev, po, qh) => (acc.1 ++ [showSection j.P.dim full.2 ev po qh s], acc.2 + 1)) ([], 0)).1
     let tr := if j.trace then
         (full.2.log.reverse.zipIdx.map fun ((x, b), i) =>
           s!"q {i} {if b then 1 else 0} " ++ joinSp (x.toList.map floatBits))
